@@ -38,6 +38,13 @@ Fill(q, x, s, e) == [i \in 1..Len(q) |-> IF i > s /\ i <= e THEN x ELSE q[i]]
 \* copy src[s+1..e] into dst at offset at (sources are read before the write: memmove semantics)
 CopyInto(dst, at, src, s, e) == [i \in 1..Len(dst) |-> IF i > at /\ i <= at + (e - s) THEN src[s + (i - at)] ELSE dst[i]]
 
+\* UTF-8 layout of a string of code points: a string cursor is a byte offset
+BLen(cp) == IF cp < 128 THEN 1 ELSE IF cp < 2048 THEN 2 ELSE IF cp < 65536 THEN 3 ELSE 4
+RECURSIVE ByteSize(_, _)
+ByteSize(q, n) == IF n = 0 THEN 0 ELSE ByteSize(q, n - 1) + BLen(q[n])         \* bytes of the first n characters
+CharAt(q, off) == {i \in 1..Len(q) : ByteSize(q, i - 1) = off}                    \* the character starting at byte offset off
+CharEndingAt(q, off) == {i \in 1..Len(q) : ByteSize(q, i) = off}
+
 Contract(c, st) ==
   LET op == c[1]
       o == c[2]
@@ -80,6 +87,16 @@ Contract(c, st) ==
          ELSE IF ~Huge(c[3]) /\ c[3] > 64 THEN AnyR(st)
          ELSE ErrR(st)
     [] op = "int->char" -> IF Scalar(c[3]) THEN ValR(IntV(c[3]), st) ELSE AnyR(st)
+    [] op = "cur" ->          \* <<"cur", o, which, off>>: string-cursor-next / -prev / -ref with a cursor made from ANOTHER, longer string
+         LET off == c[4]
+             sz == ByteSize(q, n)
+         IN IF o # "S" THEN ErrR(st)
+            ELSE IF c[3] = "next" THEN (IF CharAt(q, off) # {} THEN ValR(IntV(off + BLen(q[CHOOSE i \in CharAt(q, off) : TRUE])), st)
+                                        ELSE IF off < 0 \/ off > sz THEN ErrR(st) ELSE AnyR(st))      \* at the end / inside a character: in bounds
+            ELSE IF c[3] = "prev" THEN (IF CharEndingAt(q, off) # {} THEN ValR(IntV(ByteSize(q, (CHOOSE i \in CharEndingAt(q, off) : TRUE) - 1)), st)
+                                        ELSE IF off < 0 \/ off > sz THEN ErrR(st) ELSE AnyR(st))      \* at the start: the before-start sentinel
+            ELSE (IF CharAt(q, off) # {} THEN ValR(IntV(q[CHOOSE i \in CharAt(q, off) : TRUE]), st)
+                  ELSE IF off < 0 \/ off >= sz THEN ErrR(st) ELSE AnyR(st))
     [] op = "arity" -> ErrR(st)                 \* a call with a wrong number of arguments
     [] op = "nonproc" -> ErrR(st)               \* application of a non-procedure
     [] op = "car" -> IF o = "L" /\ n > 0 THEN ValR(IntV(q[1]), st) ELSE ErrR(st)      \* car/cdr of a non-pair
@@ -107,6 +124,7 @@ AllCalls ==
   \cup {<<"tail", o, i>> : o \in {"L", "V", "N"}, i \in Idx}
   \cup {<<"make", k, i>> : k \in {"vector", "string", "bytevector"}, i \in {-1, 0, 1, 5, 1000000001, 1000000002, -1000000002}}
   \cup {<<"int->char", "N", x>> : x \in {0, 65, 55295, 55296, 57343, 57344, 1114111, 1114112, -1, 1000000002}}
+  \cup {<<"cur", o, w, off>> : o \in {"S", "V", "N"}, w \in {"next", "prev", "ref"}, off \in {-1, 0, 1, 2, 3, 4, 5, 6, 100}}
   \cup {<<"arity", o, k>> : o \in {"V", "S", "L"}, k \in {0, 1, 3, 4}}
   \cup {<<"nonproc", o>> : o \in Objs}
   \cup {<<"car", o>> : o \in Objs}
